@@ -14,7 +14,7 @@ import os
 import z3
 from . import sorts as S
 from .sorts import (V, VNum, VBool, VStr, VSet, VSeq, VOpt, VDict, VTup, VRec, VObj, VFunc, VNone, NONE,
-                    VPyList)
+                    VPyList, VTBDict)
 
 REPO = os.environ.get("VERIF_REPO", "/repo")
 SRC = os.path.join(REPO, "src", "votekit")
@@ -292,6 +292,8 @@ class Exec:
             return v.term != S.EMPTY_SET
         if isinstance(v, VDict):
             return v.keys != S.EMPTY_SET
+        if isinstance(v, VTBDict):
+            return v.has
         if isinstance(v, VTup):
             return z3.BoolVal(len(v.items) > 0)
         if isinstance(v, VPyList):
@@ -379,6 +381,8 @@ class Exec:
             return a.term == b.term
         if isinstance(a, VFunc) and isinstance(b, VFunc):
             return a.term == b.term
+        if isinstance(a, VTBDict) and isinstance(b, VTBDict):
+            return z3.And(a.has == b.has, z3.Implies(a.has, z3.And(a.key == b.key, a.val == b.val)))
         if isinstance(a, VDict) and isinstance(b, VDict):
             # equal key sets and equal values on the keys (values off the key set are irrelevant)
             c = z3.Const(S.fresh_name("kd"), S.PyStr)
@@ -400,7 +404,11 @@ class Exec:
     def enum_of(self, st: State, t) -> VSeq:
         """demonic enumeration of a set (fresh at each iteration site, S-SET)"""
         e = z3.Const(S.fresh_name("enum"), S.SeqStr)
-        st.facts.append(z3.Length(e) == self.card_of(st, t))
+        c = self.card_of(st, t)
+        st.facts.append(z3.Length(e) == c)
+        # the first element is a member; a singleton set is exactly {first element}
+        st.facts.append(z3.Implies(c > 0, z3.Select(t, e[0])))
+        st.facts.append(z3.Implies(c == 1, t == z3.Store(S.EMPTY_SET, e[0], True)))
         return VSeq(e, S.Str, "list"), e
 
     # ---------------------------------------------------------------- expressions
@@ -496,6 +504,16 @@ class Exec:
             st.facts.append(S.card(t) == 1)
         return VSet(t)
 
+    def e_Dict(self, n, st):
+        if not n.keys:
+            return VTBDict(z3.BoolVal(False), S.EMPTY_SET, z3.Empty(S.SeqCSet))  # {} (used for tiebreak records)
+        if len(n.keys) == 1 and n.keys[0] is not None:
+            k = self.eval(n.keys[0], st)
+            v = self.eval(n.values[0], st)
+            if isinstance(k, VSet) and isinstance(v, (VSeq, VTup)):
+                return VTBDict(z3.BoolVal(True), k.term, self.as_seq(v, S.CSet).term)
+        raise OutOfReach("dict display")
+
     def e_UnaryOp(self, n, st):
         v = self.eval(n.operand, st)
         if isinstance(n.op, ast.Not):
@@ -567,6 +585,8 @@ class Exec:
             return VRec(z3.If(c, a.term, b.term), a.cls)
         if isinstance(a, VNone) and isinstance(b, VNone):
             return NONE
+        if isinstance(a, VTBDict) and isinstance(b, VTBDict):
+            return VTBDict(z3.If(c, a.has, b.has), z3.If(c, a.key, b.key), z3.If(c, a.val, b.val))
         if isinstance(a, VDict) and isinstance(b, VDict):
             return VDict(z3.If(c, a.keys, b.keys), z3.If(c, a.vals, b.vals), a.val)
         # optionals
@@ -615,6 +635,11 @@ class Exec:
         if isinstance(op, (ast.In, ast.NotIn)):
             r = self.contains(b, a, st)
             return r if isinstance(op, ast.In) else z3.Not(r)
+        if isinstance(a, VSet) and isinstance(b, VSet) and isinstance(op, (ast.LtE, ast.GtE)):
+            if isinstance(op, ast.GtE):
+                a, b = b, a
+            c = z3.Const(S.fresh_name("sc"), S.PyStr)
+            return z3.ForAll([c], z3.Implies(a.term[c], b.term[c]))
         if isinstance(a, VOpt) and not self.spec_mode:
             self.need(st, z3.Not(a.isnone), "TypeError", node, "comparison with None")
             a = a.val
@@ -783,6 +808,10 @@ class Exec:
                 return VSeq(S.st_remaining(t), S.CSet)
             if attr == "round_number":
                 return VNum(S.st_round(t), "int")
+            if attr == "scores":
+                return VDict(S.st_skeys(t), S.st_svals(t))
+            if attr == "tiebreaks":
+                return VTBDict(S.st_tb_has(t), S.st_tb_key(t), S.st_tb_val(t))
         if isinstance(base, VRec) and base.cls == "Profile":
             P = S.ProfileS
             t = base.term
